@@ -43,7 +43,8 @@ def gen(rng, tier):
         # avoid pushing epsilon moves so that every closure is finite (exact references on both sides)
         p['delta'] = [t for t in p['delta'] if not (t[1] == p['eps'] and t[4] != p['eps'])]
         ps.append(p)
-    cases = []
+    rep = [G.replace_pda(rng) for _ in range(12 if quick else 150)]
+    cases = [{'P': p, 'n': 3, 'cfg': len(p['Sigma']) <= 2 and i % 3 == 0, 'deep': False} for i, p in enumerate(rep)]
     for i, p in enumerate(ps):
         small = len(p['Q']) <= 2 and len(p['delta']) <= 3
         tiny = len(p['Q']) == 1 and len(p['delta']) <= 2 and len(p['F']) == 1 and all((t[2] == p['eps']) != (t[4] == p['eps']) for t in p['delta'])
